@@ -55,8 +55,40 @@ def cards_of(cfg):
     return theory, obs
 
 
+class ToyPdf:
+    """A smooth toy PDF with the lhapdf-like interface apply_pdf uses (gluon and five quark flavours)."""
+
+    def hasFlavor(self, pid):
+        return pid == 21 or 1 <= abs(pid) <= 5
+
+    def xfxQ2(self, pid, x, mu2):
+        import math
+
+        a = 0.2 + 0.05 * (abs(pid) % 7) + (0.03 if pid < 0 else 0.0)
+        return x ** a * (1.0 - x) ** (3.0 + 0.1 * (abs(pid) % 5)) * (1.0 + 0.05 * math.log(mu2))
+
+
 def digest_slot(res):
     return recorder.digest_result(res)
+
+
+def fresh_map(fn, items):
+    """One NEW process per item, forked from a server that has only imported the code under test (the import is paid once)."""
+    import multiprocessing as mp
+    from . import common
+
+    common.setup_env()
+    common.warm_jit()
+    ctx = mp.get_context("forkserver")
+    ctx.set_forkserver_preload(["harness.session_preload"])
+    with ctx.Pool(min(common.NCPU, max(1, len(items))), initializer=common._init_worker, maxtasksperchild=1) as pool:
+        res = pool.map(common._call, [(fn, it) for it in items], chunksize=1)
+    out = []
+    for it, (st, val) in zip(items, res):
+        if st == "err":
+            raise common.MachineryError(f"session driver failed on {str(it)[:300]}:\n{val}")
+        out.append(val)
+    return out
 
 
 def run_session(job):
@@ -66,10 +98,11 @@ def run_session(job):
     from yadism import runner as yr
 
     lines = [dict(sid=sid, ev="Begin")]
-    live, last = {}, {}
+    live, last, cfgs = {}, {}, {}
     for e in events:
         if e[0] == "C":
             r, cfg = e[1], e[2]
+            cfgs[r] = cfg
             th, ob = cards_of(cfg)
             try:
                 live[r] = (yr.Runner(th, ob), list(plan_of(cfg)))
@@ -77,6 +110,29 @@ def run_session(job):
             except Exception as ex:  # a rejection at construction is an outcome of the configuration
                 live[r] = None
                 lines.append(dict(sid=sid, ev="C", r=r, cfg=cfg, outcome="raised:" + type(ex).__name__))
+        elif e[0] == "A":
+            r = e[1]
+            if live.get(r) is None or r not in last:
+                continue
+            run, names = live[r]
+            out = last[r]
+            k = sum(cfgs[r].values())        # the scale ratios are a function of the configuration
+            xis = (2.0 if k % 2 else 1.0, 0.5 if k % 3 == 1 else 1.0)
+            try:
+                pr = out.apply_pdf_alphas_alphaqed_xir_xif(ToyPdf(), lambda mu2: 0.2 / (1.0 + 0.1 * float(__import__("math").log(mu2))),
+                                                           lambda mu2: 0.0075, *xis)
+                h = hashlib.sha1()
+                for n in names:
+                    for pt in pr[n]:
+                        h.update(repr(sorted((k, repr(float(v))) for k, v in pt.items() if isinstance(v, (int, float)))).encode())
+                pd = h.hexdigest()
+            except Exception as ex:
+                pd = "raised:" + type(ex).__name__
+            try:
+                dg = [digest_slot(res) for n in names for res in out[n]]
+            except Exception as ex:
+                dg = ["raised:" + type(ex).__name__]
+            lines.append(dict(sid=sid, ev="A", r=r, digests=dg, pred=pd))
         elif e[0] == "D":
             r = e[1]
             import pathlib, tempfile
@@ -170,8 +226,10 @@ def to_ids(lines, dig):
     out = []
     for e in lines:
         e = dict(e)
-        if e["ev"] in ("G", "D"):
+        if e["ev"] in ("G", "D", "A"):
             e["digests"] = [dig.setdefault(d, len(dig) + 1) for d in e["digests"]]
+        if e["ev"] == "A":
+            e["pred"] = dig.setdefault(e["pred"], len(dig) + 1)
         if e["ev"] == "D":
             e["loaded"] = [dig.setdefault(d, len(dig) + 1) for d in e["loaded"]]
         out.append(e)
@@ -204,7 +262,7 @@ def run(ctx):
     behd = ctx.tlc_emit("Emit_Session", common.cfg_text(_cfg(MaxRunners=1, MaxEvents=4, MaxCalls=2, WithDump=True), dict(Alts="HdrAlts", Coords="HdrCoords"),
                                                          invariants=["Collect"], postcondition="Written"),
                         name="Emit_Session_dump", env=dict(HEADER_FILE=str(hf)), workers=1)
-    dumps = [b for b in behd if schedule_shape(b) == "C1G1D1G1"]
+    dumps = [b for b in behd if schedule_shape(b) in ("C1G1D1G1", "C1G1A1G1")]
     solos = [b for b in beh if schedule_shape(b) == "C1G1"]
     multi = [b for b in beh if sum(1 for e in b if e[0] == "C") >= 2]
     if q:
@@ -221,7 +279,7 @@ def run(ctx):
     sessions = solos + multi + dumps  # solos first: they define the reference digests
     ctx.cov["session_behaviours"] = dict(emitted=len(beh), solo=len(solos), driven=len(sessions),
                                          shapes=sorted({schedule_shape(b) for b in sessions}))
-    raw = ctx.pmap(run_session, list(enumerate(sessions)), fresh=True)
+    raw = fresh_map(run_session, list(enumerate(sessions)))
     dig = {}
     lines = [to_ids(s, dig) for s in raw]
     for s in lines:
@@ -270,16 +328,26 @@ def run(ctx):
         d = [e for e in c if e["ev"] == "D"][-1]
         d["digests"][-1] = 10 ** 6
 
+    def pred(c):
+        a = [e for e in c if e["ev"] == "A"][-1]
+        a["pred"] = 10 ** 6
+
+    def after_apply(c):
+        a = [e for e in c if e["ev"] == "A"][-1]
+        a["digests"][0] = 10 ** 6
+
+    gooda = [s for s in lines if s[0]["sid"] not in bad and any(e["ev"] == "A" for e in s)][:2]
     goodd = [s for s in lines if s[0]["sid"] not in bad and any(e["ev"] == "D" for e in s)][:2]
     cor, names = [], {}
     for k, (nm, fn, src) in enumerate([("digest", digest, good), ("slot_dropped", slot, good), ("outcome", outcome, good), ("runner_id", runner_id, good),
-                                       ("loaded_digest", loaded, goodd), ("digest_after_dump", after_dump, goodd)]):
+                                       ("loaded_digest", loaded, goodd), ("digest_after_dump", after_dump, goodd),
+                                       ("prediction", pred, gooda), ("digest_after_apply", after_apply, gooda)]):
         for s in src[:2]:
             c = corrupt(s, fn, 10 ** 5 * (k + 1))
             names[c[0]["sid"]] = nm
             cor.append(c)
     if cor:
-        refs = [s for s in lines if len(s) == 3]
+        refs = [s for s in lines if len(s) == 3] + gooda      # the accepted apply sessions define the reference predictions
         badc = validate(ctx, refs + cor, hf, "selftest_sessions")
         ctx.cov["tlc_runs"] = [r for r in ctx.cov["tlc_runs"] if r.get("cfg") != "selftest_sessions"]
         missed = sorted({nm for sid, nm in names.items() if sid not in badc})
@@ -299,7 +367,7 @@ def replay(ctx, obj):
     ev = obj["events"]
     cfgs = [e[2] for e in ev if e[0] == "C"]
     sessions = [[["C", 1, c], ["G", 1]] for c in cfgs] + [ev]
-    raw = common.pmap(run_session, list(enumerate(sessions)), fresh=True)
+    raw = fresh_map(run_session, list(enumerate(sessions)))
     dig = {}
     lines = [to_ids(s, dig) for s in raw]
     hf = ctx.dir / "session.header.json"
